@@ -142,3 +142,15 @@ def run(ctx):
     fcg = CallGraph(fx)
     fs, _ = growth.growth_sites(fx, fcg, [f.path for f in fx.fn_list if 'ctl_grow' in f.path])
     ctx.check(R, len([s for s in fs if s[4] == 'state']) >= 2, 'control-fixture', 'the growth scan misses the fixture\'s growing map/log: checker broken', kind='violation')
+    # the node cache is the one large, FIXED allocation of the builder: literal geometry, sized once (R12.3, shared with C12)
+    import rules.C12 as C12
+    ctx.step(C12.r12_3_6, ctx, A)
+    # the CLI's pipeline hands batches over bounded channels (an unbounded one lets the reader slurp the whole input)
+    b = ctx.bin
+    if b is not None:
+        R3 = ctx.rule('R13.3', 'fst-bin: the channels of the merge pipeline are bounded', floor=1)
+        ub = [(g, t) for g in b.fn_list if g.path.startswith(('merge::', '<merge::')) for _, t in g.calls() if (g.callee(t) or '').endswith('crossbeam_channel::unbounded')]
+        for g, t in ub:
+            ctx.violation(R3, 'unbounded:' + g.path, 'the merge pipeline creates an unbounded channel: the producer can run arbitrarily far ahead and memory grows with the input', fn=g, at=t.get('span'))
+        nb = sum(1 for g in b.fn_list if g.path.startswith(('merge::', '<merge::')) for _, t in g.calls() if (g.callee(t) or '').endswith('crossbeam_channel::bounded'))
+        ctx.check(R3, not ub and nb >= 1, 'bounded-channels', 'unbounded channel in the merge pipeline (bounded ones found: %d)' % nb)
